@@ -46,6 +46,40 @@ def locate_req(p, r):
     return loc, boolidx, isbool
 
 
+def check_paths(run, p, tgt, reqs, s0):
+    """C09, end to end: every tag service the target executed for this call addresses a location one of the requests names
+    (a well-formed path that denotes another tag or member is the failure this sees)"""
+    ranges, tolerated, any_invalid = [], set(), False
+    for r in reqs:
+        t = p.tags.get((r.get("scope"), r["tag"]))
+        if r.get("invalid"):
+            any_invalid = True
+            if t is not None:
+                tolerated.add(tgt.mkey(t))
+            continue
+        try:
+            loc, _, isbool = locate_req(p, r)
+        except LocateError:
+            any_invalid = True
+            continue
+        es = p.elem_size(loc.type)
+        n = max(r.get("count") or 1, 1)
+        hi = loc.offset + es * (loc.remaining if isbool else n)
+        ranges.append((tgt.mkey(loc.tag), loc.offset, max(hi, loc.offset + 1)))
+    for rec in tgt.svc_log[s0:]:
+        if rec.get("forced"):
+            continue
+        if "tag" not in rec:
+            if "error" in rec and not any_invalid:
+                run.add("C09", "tagpath.unresolvable", f"a request path of a valid request does not resolve at the target: {rec.get('path', b'').hex()} ({rec['error']})"[:400])
+            continue
+        if rec["tag"] in tolerated or "offset" not in rec:
+            continue
+        if not any(k == rec["tag"] and lo <= rec["offset"] < hi for k, lo, hi in ranges):
+            run.add("C09", "tagpath.other-object", f"the target executed a service on {rec['tag']} at byte {rec['offset']}, which none of the requests "
+                                                    f"{[render(r) for r in reqs][:6]} addresses; path {rec.get('path', b'').hex()}"[:500])
+
+
 def _traffic_bound(p, reqs):
     """generous upper bound of the frames the requests may legitimately need (>= 8 data bytes per fragment, 3 passes)"""
     total = 0
@@ -380,7 +414,9 @@ def _run_read(run, p, tgt, plc, reqs, forced_status):
     names = [render(r) for r in reqs]
     a0, l0 = len(tgt.audits), len(tgt.log)
     room0 = getattr(tgt, "room_refused", 0)
+    s0 = len(tgt.svc_log)
     ok, res = call(run, lambda: plc.read(*names), "read")
+    check_paths(run, p, tgt, reqs, s0)
     allowance = getattr(tgt, "room_refused", 0) - room0   # members the target itself refused for lack of room: those may fail
     collect_audits(run, tgt, a0)
     _packets_stats(run, tgt, l0, 0)
@@ -447,6 +483,7 @@ def _run_write(run, p, tgt, plc, reqs, forced_status, want_readback):
     else:
         ok, res = call(run, lambda: plc.write(*pairs), "write")
     tgt.audit_write_transfers()
+    check_paths(run, p, tgt, reqs, s0)
     collect_audits(run, tgt, a0)
     _packets_stats(run, tgt, l0, 0)
     if not ok:
